@@ -207,7 +207,7 @@ fn closure_run(args: &[String], input: &[u8], n: Option<usize>) -> (fp_harness::
     let scratch = Scratch::new("c17");
     let mut a = vec![scratch.file("in.raw", input).display().to_string()];
     a.extend(args.iter().cloned());
-    let mut run = Run::new(&a).cwd(&scratch.path).timeout_s(10).stdout_pipe_size(4096);
+    let mut run = Run::new(&a).cwd(&scratch.path).timeout_s(if input.len() > 10_000_000 { 60 } else { 10 }).stdout_pipe_size(4096);
     if let Some(n) = n {
         run = run.close_stdout_after(n);
     }
@@ -680,7 +680,7 @@ pub fn run(tier: Tier, replay: Option<String>, part: Option<usize>) -> i32 {
         }
         let _ = binary_out;
         // thorough: every N; quick: every N up to 1100 (line / 1 KiB buffer effects), then every 97th byte
-        let ns: Vec<usize> = if label.starts_with("big:") { vec![0, 1, 4096, 65_536, 1 << 20, 50_000_000, len] } else { (0..=len).filter(|n| tier.is_thorough() || *n <= 200 || (1000..=1050).contains(n) || n % 211 == 0 || *n == len).collect() };
+        let ns: Vec<usize> = if label.starts_with("big:") { vec![0, 1, 4096, 65_536, 1 << 20, 3 << 20] } else { (0..=len).filter(|n| tier.is_thorough() || *n <= 200 || (1000..=1050).contains(n) || n % 211 == 0 || *n == len).collect() };
         let res = par_map(&ns, |_, n| {
             let (r, _s) = closure_run(&args, &input, Some(*n));
             let err = r.stderr_str();
